@@ -35,7 +35,7 @@ pub open spec fn rounds_digest(d: nat, roots: Seq<nat>, n: nat) -> nat decreases
 }
 pub open spec fn round_eval_point(d: nat, roots: Seq<nat>, i: nat) -> nat { ts_squeeze(rounds_digest(d, roots, i + 1), 0) }
 
-//@repo crates/fri/src/fri.rs fn fri_commit_rounds props=C08
+//@repo crates/fri/src/fri.rs fn fri_commit_rounds props=C01,C02,C08
 pub fn fri_commit_rounds(
     transcript: &mut Transcript,
     n_layers: Felt,
@@ -47,10 +47,10 @@ pub fn fri_commit_rounds(
         configs@.len() >= n_layers@,                  // [C18:fri-rounds-one-config-per-inner-layer]
         unsent_commitments@.len() >= n_layers@,       // [C18:fri-rounds-one-root-per-inner-layer]
     ensures
-        r.0@.len() == n_layers@ && r.1@.len() == n_layers@, // [C08:fri-rounds-one-commitment-and-one-eval-point-per-inner-layer]
+        r.0@.len() == n_layers@ && r.1@.len() == n_layers@, // [C01,C02,C08:fri-rounds-one-commitment-and-one-eval-point-per-inner-layer]
         forall|i: int| 0 <= i < n_layers@ ==> (#[trigger] r.0@[i]).config == configs@[i] && r.0@[i].vector_commitment.config == configs@[i].vector
-            && r.0@[i].vector_commitment.commitment_hash == unsent_commitments@[i], // [C08:fri-round-i-commits-root-i-under-config-i]
-        forall|i: int| 0 <= i < n_layers@ ==> (#[trigger] r.1@[i])@ == round_eval_point(old(transcript).digest@, fv(unsent_commitments@), i as nat), // [C08:fri-eval-point-i-squeezed-right-after-root-i]
+            && r.0@[i].vector_commitment.commitment_hash == unsent_commitments@[i], // [C01,C02,C08:fri-round-i-commits-root-i-under-config-i]
+        forall|i: int| 0 <= i < n_layers@ ==> (#[trigger] r.1@[i])@ == round_eval_point(old(transcript).digest@, fv(unsent_commitments@), i as nat), // [C01,C02,C08:fri-eval-point-i-squeezed-right-after-root-i]
         final(transcript).digest@ == rounds_digest(old(transcript).digest@, fv(unsent_commitments@), n_layers@), // [C08:fri-rounds-absorb-exactly-the-inner-roots-in-order]
         n_layers@ > 0 ==> final(transcript).counter@ == 1,
         n_layers@ == 0 ==> final(transcript).counter@ == old(transcript).counter@,
@@ -101,7 +101,7 @@ pub open spec fn fri_commit_pre(u: &types::UnsentCommitment, c: &FriConfig) -> b
     &&& u.last_layer_coefficients@.len() == pow2(c.log_last_layer_degree_bound@)
 }
 
-//@repo crates/fri/src/fri.rs fn fri_validate_unsent_commitment props=C18,C02
+//@repo crates/fri/src/fri.rs fn fri_validate_unsent_commitment props=C02,C18
 pub fn fri_validate_unsent_commitment(
     unsent_commitment: &types::UnsentCommitment,
     config: &FriConfig,
@@ -131,7 +131,7 @@ pub fn fri_validate_unsent_commitment(
 }
 //@end
 
-//@repo crates/fri/src/fri.rs fn fri_commit props=C08
+//@repo crates/fri/src/fri.rs fn fri_commit props=C01,C02,C08
 pub fn fri_commit(
     transcript: &mut Transcript,
     unsent_commitment: types::UnsentCommitment,
@@ -140,14 +140,14 @@ pub fn fri_commit(
     requires
         fri_commit_pre(&unsent_commitment, &config), // [C18:fri-commit-shape-validated-before-call]
     ensures
-        r.config == config,                                                                 // [C08:fri-commitment-keeps-config]
-        r.inner_layers@.len() == config.n_layers@ - 1 && r.eval_points@.len() == config.n_layers@ - 1, // [C08:fri-one-commitment-and-eval-point-per-inner-layer]
+        r.config == config,                                                                 // [C01,C02,C08:fri-commitment-keeps-config]
+        r.inner_layers@.len() == config.n_layers@ - 1 && r.eval_points@.len() == config.n_layers@ - 1, // [C01,C02,C08:fri-one-commitment-and-eval-point-per-inner-layer]
         forall|i: int| 0 <= i < config.n_layers@ - 1 ==> (#[trigger] r.inner_layers@[i]).config == config.inner_layers@[i]
             && r.inner_layers@[i].vector_commitment.config == config.inner_layers@[i].vector
-            && r.inner_layers@[i].vector_commitment.commitment_hash == unsent_commitment.inner_layers@[i], // [C08:fri-inner-layer-i-commits-root-i]
-        forall|i: int| 0 <= i < config.n_layers@ - 1 ==> (#[trigger] r.eval_points@[i])@ == round_eval_point(old(transcript).digest@, fv(unsent_commitment.inner_layers@), i as nat), // [C08:fri-eval-points-follow-their-roots]
-        r.last_layer_coefficients == unsent_commitment.last_layer_coefficients,             // [C08:fri-commitment-keeps-last-layer-coefficients]
-        final(transcript).digest@ == ts_absorb_vec(rounds_digest(old(transcript).digest@, fv(unsent_commitment.inner_layers@), (config.n_layers@ - 1) as nat), felts_view(unsent_commitment.last_layer_coefficients@)), // [C08:fri-last-layer-coefficients-absorbed-after-all-rounds]
+            && r.inner_layers@[i].vector_commitment.commitment_hash == unsent_commitment.inner_layers@[i], // [C01,C02,C08:fri-inner-layer-i-commits-root-i]
+        forall|i: int| 0 <= i < config.n_layers@ - 1 ==> (#[trigger] r.eval_points@[i])@ == round_eval_point(old(transcript).digest@, fv(unsent_commitment.inner_layers@), i as nat), // [C01,C02,C08:fri-eval-points-follow-their-roots]
+        r.last_layer_coefficients == unsent_commitment.last_layer_coefficients,             // [C01,C02,C08:fri-commitment-keeps-last-layer-coefficients]
+        final(transcript).digest@ == ts_absorb_vec(rounds_digest(old(transcript).digest@, fv(unsent_commitment.inner_layers@), (config.n_layers@ - 1) as nat), felts_view(unsent_commitment.last_layer_coefficients@)), // [C01,C02,C08:fri-last-layer-coefficients-absorbed-after-all-rounds]
         final(transcript).counter@ == 0,
 {
     assert!(config.n_layers > Felt::from(0), "Invalid value");
@@ -235,7 +235,7 @@ pub proof fn lemma_cs(step: nat)
     assert(pow2(1) == 2 && pow2(2) == 4 && pow2(3) == 8 && pow2(4) == 16) by(compute_only);
 }
 
-//@repo crates/fri/src/fri.rs fn fri_verify_layers props=C07,C01,C02
+//@repo crates/fri/src/fri.rs fn fri_verify_layers props=C01,C02,C07
 #[verifier::loop_isolation(false)]
 fn fri_verify_layers(
     fri_group: Vec<Felt>,
@@ -254,7 +254,7 @@ fn fri_verify_layers(
         queries@.len() <= 0xffff_ffff, all_xinv_nonzero(fqs(queries@)), // [C18:fri-layer-queries-few-and-with-nonzero-inverse-points]
     ensures
         r.is_ok() <==> layers_walk(fqs(queries@), 0, n_layers@, commitment@, layer_witness@, eval_points@, step_sizes@, fv(fri_group@)) is Some, // [C01,C02,C07:inner-layers-ok-iff-every-layer-folds-and-DECOMMITS-against-its-root]
-        r.is_ok() ==> fqs(r->Ok_0@) == layers_walk(fqs(queries@), 0, n_layers@, commitment@, layer_witness@, eval_points@, step_sizes@, fv(fri_group@))->Some_0, // [C07:last-layer-queries-are-the-folded-queries]
+        r.is_ok() ==> fqs(r->Ok_0@) == layers_walk(fqs(queries@), 0, n_layers@, commitment@, layer_witness@, eval_points@, step_sizes@, fv(fri_group@))->Some_0, // [C01,C02,C07:last-layer-queries-are-the-folded-queries]
 {
     hide(fadd); hide(fsub); hide(fmul); hide(fdiv);
     let len: usize = n_layers.to_biguint().try_into().unwrap();
@@ -381,7 +381,7 @@ pub open spec fn fri_verify_pre(queries: Seq<Felt>, c: &FriCommitment, points: S
     &&& queries.len() <= 0xffff_ffff
 }
 
-//@repo crates/fri/src/fri.rs fn fri_verify props=C07,C01,C02 rules=R1_map_err_last_layer
+//@repo crates/fri/src/fri.rs fn fri_verify props=C01,C02,C07 rules=R1_map_err_last_layer
 pub fn fri_verify(
     queries: &[Felt],
     commitment: FriCommitment,
